@@ -823,6 +823,14 @@ func kindNames(a []types.BasicKind) string {
 // payloadTemp: v is a load of a local whose address is passed to a read helper in block b; returns
 // the helper's width.
 func payloadTemp(v ssa.Value, b *ssa.BasicBlock) (int64, bool) {
+	// the payload returned by value: x, err := r.ReadByte() / x, err := readU16(r)
+	if ex, ok := v.(*ssa.Extract); ok && ex.Index == 0 {
+		if c, ok := ex.Tuple.(*ssa.Call); ok {
+			if w, ok := widthOfCall(&c.Call, 0); ok && w.variable == 0 {
+				return w.fixed, true
+			}
+		}
+	}
 	ld, ok := v.(*ssa.UnOp)
 	if !ok || ld.Op != token.MUL {
 		return 0, false
@@ -1016,6 +1024,8 @@ func ruleReadConversions(r *R) {
 									}
 								}
 								_ = ld
+							} else if tw, isTmp := payloadTemp(lb, b); isTmp && tw == m {
+								okk = true // length returned by value (ReadByte / a value-returning helper)
 							}
 						}
 					}
@@ -1032,7 +1042,7 @@ func ruleBitsAndOrder(r *R) {
 	sp := r.w.Pkg(codecPkg)
 	// helpers: package-level functions with *bytes.Buffer / *bytes.Reader and a multi-byte array
 	for _, fn := range r.w.Funcs(sp) {
-		if fn.Signature.Recv() != nil || fn.Parent() != nil || len(fn.Params) != 2 {
+		if fn.Signature.Recv() != nil || fn.Parent() != nil || len(fn.Params) == 0 {
 			continue
 		}
 		id := typeID(fn.Params[0].Type())
@@ -1050,19 +1060,63 @@ func ruleBitsAndOrder(r *R) {
 		if arrLen <= 1 {
 			continue
 		}
-		want := fmt.Sprintf("Uint%d", arrLen*8)
-		if id == "bytes.Buffer" {
-			want = "Put" + want
-		}
-		found := ""
-		eachInstr(fn, func(in ssa.Instruction) {
-			if c := callCommon(in); c != nil {
-				if o := calleeObj(c); o != nil && o.Pkg() != nil && o.Pkg().Path() == "encoding/binary" {
-					found = funcID(o)
+		n := int(arrLen)
+		// decided by executing the helper symbolically at bit level (A13): whatever it is written with —
+		// encoding/binary, shifts, a loop — the bytes on the wire must be the big-endian bytes of the value
+		st, ran := symRun(fn, 4000)
+		okk, why := false, ""
+		switch {
+		case !ran:
+			why = "the helper could not be executed symbolically (" + st.why + ")"
+		case id == "bytes.Buffer":
+			var data *ssa.Parameter
+			for _, p := range fn.Params[1:] {
+				if w, _, isInt := intWidth(p.Type()); isInt && w == 8*n {
+					data = p
 				}
 			}
-		})
-		r.Check(found == "encoding/binary.(bigEndian)."+want, fname(fn), "byte order", fn.Pos(), "uses binary.BigEndian.%s on a [%d]byte", "multi-byte payloads are big-endian: expected binary.BigEndian.%s on the [%d]byte array, found %q", want, arrLen, found)
+			if data == nil || len(st.out) != n {
+				why = fmt.Sprintf("%d byte(s) written for a %d-byte value", len(st.out), n)
+				break
+			}
+			okk = true
+			for j := 0; j < n; j++ {
+				if !svalEqual(st.out[j], bigEndianByte(data.Name(), n, j)) {
+					okk = false
+					why = fmt.Sprintf("byte %d on the wire is [%s], big-endian order requires bits %d..%d of %s", j, st.out[j], 8*(n-1-j)+7, 8*(n-1-j), data.Name())
+					break
+				}
+			}
+		default:
+			var got sval
+			for _, p := range fn.Params[1:] {
+				if v, ok := st.pstores[p]; ok {
+					got = v
+				}
+			}
+			if got.b == nil {
+				for _, rv := range st.rets {
+					if len(rv.b) == 8*n {
+						got = rv
+					}
+				}
+			}
+			if got.b == nil || len(got.b) != 8*n || st.nread != n {
+				why = fmt.Sprintf("%d byte(s) read, no %d-bit value delivered", st.nread, 8*n)
+				break
+			}
+			okk = true
+			for j := 0; j < n && okk; j++ {
+				for k := 0; k < 8; k++ {
+					if got.b[8*(n-1-j)+k] != sbit(fmt.Sprintf("in%d.%d", j, k)) {
+						okk = false
+						why = fmt.Sprintf("bit %d of the value is %s, big-endian order requires bit %d of input byte %d", 8*(n-1-j)+k, got.b[8*(n-1-j)+k], k, j)
+						break
+					}
+				}
+			}
+		}
+		r.Check(okk, fname(fn), "byte order", fn.Pos(), sprintfLoose("the %d bytes are the big-endian bytes of the value (executed symbolically)", []any{n}), "multi-byte payloads are big-endian: %s", why)
 	}
 	wm := writerMethods(r.w)
 	for _, name := range sortedKeys(wm) {
@@ -1093,7 +1147,10 @@ func ruleBitsAndOrder(r *R) {
 					return
 				}
 				w, isW := widthOfCall(c, 0)
-				if !isW || w.variable != 0 || (w.fixed != 1 && w.fixed != 4) || c.StaticCallee() == nil || c.StaticCallee().Signature.Recv() != nil {
+				if !isW || w.variable != 0 || (w.fixed != 1 && w.fixed != 4) || c.StaticCallee() == nil {
+					return
+				}
+				if c.StaticCallee().Signature.Recv() != nil && !strings.HasPrefix(funcID(calleeObj(c)), "bytes.(Buffer).Write") {
 					return
 				}
 				arg := c.Args[len(c.Args)-1]
